@@ -263,10 +263,10 @@ theorem insert_at_start (l b : Bits) : Spec.insert l b 0 = .ok (Spec.prepend l b
 /-! ### overwrite -/
 
 /-- `overwrite`: `_overwrite` = `self._bitstore[pos:pos+len(bs)] = bs` computes `l[:p] + bs + l[p+|bs|:]` (extending
-    when it runs off the end).  Known deviations: the empty operand at an invalid position, and `a.overwrite(a, p)`
-    with `p ≠ 0` (AssertionError in `_overwrite`). -/
+    when it runs off the end); `a.overwrite(a, p)` works on a copy of `a`.  Known deviation: the empty operand at an
+    invalid position. -/
 theorem overwrite_eq_spec_partial (l : Bits) (b : Operand) (pos : Int)
-    (h1 : emptyOperandBadPos l b pos = false) (h2 : overwriteSelfNonzero l b pos = false) :
+    (h1 : emptyOperandBadPos l b pos = false) :
     Alg.overwrite l b pos = Spec.overwrite l (b.val l) pos := by
   unfold Alg.overwrite Spec.overwrite
   simp only
@@ -290,35 +290,29 @@ theorem overwrite_eq_spec_partial (l : Bits) (b : Operand) (pos : Int)
       have e : (if pos < 0 then pos + (l.length : Int) else pos).toNat = p := by split <;> omega
       rw [e]
       unfold Alg._overwrite
-      cases b with
-      | self =>
-        simp only [Operand.isSelf, if_true, Operand.val] at hb ⊢
-        simp only [overwriteSelfNonzero, Operand.isSelf, hp, Bool.true_and, Bool.and_eq_false_iff,
-          bne_eq_false_iff_eq] at h2
-        have hp0 : p = 0 := by
-          rcases h2 with h2 | h2
-          · exact absurd h2 hb
-          · exact h2
-        subst hp0
-        simp
-      | lit bs =>
-        simp only [Operand.isSelf, Operand.val, Bool.false_eq_true, if_false]
-        have e2 : (p : Int) + (bs.length : Int) = ((p + bs.length : Nat) : Int) := by omega
-        rw [e2, setSlice_clamped]
-        congr 1
-        have hle : p ≤ l.length := by omega
-        unfold splice
-        rw [Nat.min_eq_left hle]
-        by_cases hc : p + bs.length ≤ l.length
-        · rw [Nat.min_eq_left hc, Nat.max_eq_right (by omega)]
-        · rw [Nat.min_eq_right (by omega), Nat.max_eq_right hle]
-          rw [List.drop_eq_nil_of_le (Nat.le_refl _), List.drop_eq_nil_of_le (by omega)]
+      generalize b.val l = bs at hb ⊢
+      simp only [Operand.isSelf, Operand.val, Bool.false_eq_true, if_false]
+      have e2 : (p : Int) + (bs.length : Int) = ((p + bs.length : Nat) : Int) := by omega
+      rw [e2, setSlice_clamped]
+      congr 1
+      have hle : p ≤ l.length := by omega
+      unfold splice
+      rw [Nat.min_eq_left hle]
+      by_cases hc : p + bs.length ≤ l.length
+      · rw [Nat.min_eq_left hc, Nat.max_eq_right (by omega)]
+      · rw [Nat.min_eq_right (by omega), Nat.max_eq_right hle]
+        rw [List.drop_eq_nil_of_le (Nat.le_refl _), List.drop_eq_nil_of_le (by omega)]
 
-theorem overwrite_self_witness :
-    (∃ err, Alg.overwrite [true, true, false, true, false, false] .self 2 = .error err) ∧
-    Spec.overwrite [true, true, false, true, false, false] [true, true, false, true, false, false] 2 =
-      .ok [true, true, true, true, false, true, false, false] := by
-  exact ⟨⟨_, rfl⟩, by decide⟩
+/-- Self as operand: `a.overwrite(a, p)` leaves `old[:p] + old`. -/
+theorem overwrite_self (l : Bits) (pos : Int) (p : Nat) (hp : Spec.insPos l.length pos = some p) :
+    Alg.overwrite l .self pos = .ok (l.take p ++ l) := by
+  have h1 : emptyOperandBadPos l .self pos = false := by simp [emptyOperandBadPos, hp]
+  rw [overwrite_eq_spec_partial l .self pos h1]
+  unfold Spec.overwrite
+  rw [hp]
+  simp only [Operand.val]
+  have hle := insPos_le hp
+  rw [List.drop_eq_nil_of_le (by omega), List.append_nil]
 
 theorem overwrite_shape (l b r : Bits) (pos : Int) (h : Spec.overwrite l b pos = .ok r) :
     ∃ p, Spec.insPos l.length pos = some p ∧ p ≤ l.length ∧
@@ -627,8 +621,10 @@ theorem setSliceInt_frame (l r : Bits) (a b c : Option Int) (v : Int) (h : Spec.
 /-! ### non-vacuity -/
 example : emptyOperandBadPos [true, false] (.lit [true]) 7 = false := by decide
 example : Alg.insert [true, false, true] .self (-1) = .ok [true, false, true, false, true, true] := by decide
-example : overwriteSelfNonzero [true, false] (.lit [true, true, true]) 1 = false ∧
-    Alg.overwrite [true, false] (.lit [true, true, true]) 1 = .ok [true, true, true, true] := by decide
+example : emptyOperandBadPos [true, false] (.lit [true, true, true]) 1 = false ∧
+    Alg.overwrite [true, false] (.lit [true, true, true]) 1 = .ok [true, true, true, true] ∧
+    Alg.overwrite [true, true, false, true, false, false] .self 2 =
+      .ok [true, true, true, true, false, true, false, false] := by decide
 example : PyL.setSlice [1, 2, 3, 4, 5, 6] none none (some (-2)) [7, 8, 9] = .ok [1, 9, 3, 8, 5, 7] := by decide
 example : PyL.delSlice [1, 2, 3, 4, 5, 6] (some (-2)) none (some (-3)) = .ok [1, 3, 4, 6] := by decide
 example : setSliceIntNegStep [true, false, true] none none (some (-1)) = false ∧
